@@ -139,12 +139,14 @@ type inliner struct {
 	// local closure variables that are new relative to the pinned tree
 	closures map[*types.Var]*callee
 	nfresh   int
+	// closure definitions written by a normalisation of this round
+	synthDefs map[*ast.AssignStmt]bool
 }
 
 // Transform inlines calls of non-baseline functions in the given (module)
 // packages. It never fails: anything unexpected leaves the code as it is.
 func Transform(pkgs []*packages.Package, excluded func(filename string) bool) *Result {
-	in := &inliner{n: seqBase, nfresh: seqBase, res: &Result{Overlay: map[string][]byte{}}, callees: map[*types.Func]*callee{}, dirty: map[*ast.File]bool{}, state: map[*types.Func]int{}, origOf: map[*ast.Ident]*ast.Ident{}, pkgIdent: map[*ast.Ident]string{}, closures: map[*types.Var]*callee{}}
+	in := &inliner{n: seqBase, nfresh: seqBase, res: &Result{Overlay: map[string][]byte{}}, callees: map[*types.Func]*callee{}, dirty: map[*ast.File]bool{}, state: map[*types.Func]int{}, origOf: map[*ast.Ident]*ast.Ident{}, pkgIdent: map[*ast.Ident]string{}, closures: map[*types.Var]*callee{}, synthDefs: map[*ast.AssignStmt]bool{}}
 	if len(pkgs) == 0 {
 		return in.res
 	}
@@ -198,7 +200,7 @@ func Transform(pkgs []*packages.Package, excluded func(filename string) bool) *R
 		in.expandCallee(c)
 	}
 	for _, pk := range pkgs {
-		hasNew := false
+		hasNew := len(in.callees) > 0 // a new helper may live in another package
 		for _, c := range in.callees {
 			if c.pkg == pk {
 				hasNew = true
@@ -494,12 +496,14 @@ func (in *inliner) calleeOf(pk *packages.Package, call *ast.CallExpr) *site {
 	funExpr := call.Fun
 	switch x := funExpr.(type) {
 	case *ast.IndexExpr:
-		if id, ok := x.X.(*ast.Ident); ok {
-			funExpr = id
+		switch x.X.(type) {
+		case *ast.Ident, *ast.SelectorExpr:
+			funExpr = x.X
 		}
 	case *ast.IndexListExpr:
-		if id, ok := x.X.(*ast.Ident); ok {
-			funExpr = id
+		switch x.X.(type) {
+		case *ast.Ident, *ast.SelectorExpr:
+			funExpr = x.X
 		}
 	}
 	switch fun := funExpr.(type) {
@@ -527,6 +531,18 @@ func (in *inliner) calleeOf(pk *packages.Package, call *ast.CallExpr) *site {
 			obj = obj.Origin()
 		}
 		c := in.callees[obj]
+		// a function of another package of the module, called by its
+		// qualified name (a helper package that is new as a whole)
+		if xid, isId := fun.X.(*ast.Ident); isId && c != nil && c.pkg != pk {
+			if _, isPkg := pk.TypesInfo.Uses[xid].(*types.PkgName); isPkg && c.decl.Recv == nil {
+				st := &site{call: call, c: c}
+				if inst, ok := pk.TypesInfo.Instances[fun.Sel]; ok {
+					st.inst, _ = inst.Type.(*types.Signature)
+					st.targs = inst.TypeArgs
+				}
+				return st
+			}
+		}
 		if c == nil || c.pkg != pk {
 			return nil
 		}
@@ -859,6 +875,7 @@ func (in *inliner) expand(pk *packages.Package, file *ast.File, st *site, ownerD
 	callScope := pk.Types.Scope().Innermost(st.call.Pos())
 	bad := ""
 	pkgNames := map[*ast.Ident]string{} // ident (original) -> import path
+	crossNames := map[*ast.Ident]string{} // ident -> qualified spelling in the caller
 	ast.Inspect(c.decl.Body, func(n ast.Node) bool {
 		id, ok := n.(*ast.Ident)
 		if !ok {
@@ -884,6 +901,16 @@ func (in *inliner) expand(pk *packages.Package, file *ast.File, st *site, ownerD
 			// call site
 			captured := c.lit != nil && obj.Pkg() == c.pkg.Types && obj.Parent() != nil && obj.Parent() != c.pkg.Types.Scope() &&
 				(obj.Pos() < c.lit.Pos() || obj.Pos() >= c.lit.End())
+			if c.pkg != pk && obj.Parent() == c.pkg.Types.Scope() {
+				// a package-level name of the helper's own package, seen
+				// from another package: by its qualified name, if it has one
+				if qn := q.nameOf(c.pkg.PkgPath); obj.Exported() && qn != "" {
+					crossNames[id] = qn + "." + id.Name
+				} else {
+					bad = "the helper uses the unexported name " + id.Name + " of its own package"
+				}
+				return true
+			}
 			if obj.Parent() == c.pkg.Types.Scope() || obj.Parent() == types.Universe || captured {
 				if callScope != nil {
 					if _, found := callScope.LookupParent(id.Name, st.call.Pos()); found != obj {
@@ -1083,6 +1110,16 @@ func (in *inliner) expand(pk *packages.Package, file *ast.File, st *site, ownerD
 				continue
 			}
 		}
+		if argI != nil {
+			// a named constant of exactly the parameter's type handed to a
+			// parameter the callee only reads: the body names the constant
+			pv := gsig.Params().At(i)
+			if name, ok := in.namedConst(pk, argI); ok && types.Identical(pk.TypesInfo.TypeOf(argI), pt) &&
+				pv.Name() != "" && pv.Name() != "_" && in.onlyRead(c, pv) && !in.mentions(c, strings.SplitN(name, ".", 2)[0]) {
+				litParam[pv] = name
+				continue
+			}
+		}
 		if id, isId := argI.(*ast.Ident); isId {
 			// a package-level function of this package handed to a parameter
 			// that the callee only ever calls: the calls name the function
@@ -1157,6 +1194,10 @@ func (in *inliner) expand(pk *packages.Package, file *ast.File, st *site, ownerD
 		in.origOf[cp] = orig
 		if path, ok := pkgNames[orig]; ok {
 			cp.Name = q.nameOf(path)
+		}
+		if qn, ok := crossNames[orig]; ok {
+			cp.Name = qn
+			return
 		}
 		o := orig
 		for in.origOf[o] != nil {
@@ -1410,6 +1451,88 @@ func (in *inliner) onlyCalled(c *callee, pv *types.Var) bool {
 		return true
 	})
 	return uses > 0 && uses == calls
+}
+
+// namedConst: e names a typed constant (`c` or `pkg.C`); the text to write for it.
+func (in *inliner) namedConst(pk *packages.Package, e ast.Expr) (string, bool) {
+	switch x := e.(type) {
+	case *ast.Ident:
+		o := x
+		for in.origOf[o] != nil {
+			o = in.origOf[o]
+		}
+		if k, _ := pk.TypesInfo.Uses[o].(*types.Const); k != nil && k.Parent() == pk.Types.Scope() {
+			if b, isBasic := k.Type().(*types.Basic); !isBasic || b.Info()&types.IsUntyped == 0 {
+				return x.Name, true
+			}
+		}
+	case *ast.SelectorExpr:
+		q, ok := x.X.(*ast.Ident)
+		if !ok {
+			return "", false
+		}
+		o := q
+		for in.origOf[o] != nil {
+			o = in.origOf[o]
+		}
+		if _, isPkg := pk.TypesInfo.Uses[o].(*types.PkgName); !isPkg {
+			return "", false
+		}
+		if k, _ := pk.TypesInfo.Uses[x.Sel].(*types.Const); k != nil {
+			if b, isBasic := k.Type().(*types.Basic); !isBasic || b.Info()&types.IsUntyped == 0 {
+				return q.Name + "." + x.Sel.Name, true
+			}
+		}
+	}
+	return "", false
+}
+
+// onlyRead: the callee never assigns to its parameter pv, never takes its
+// address and never captures it in a function literal.
+func (in *inliner) onlyRead(c *callee, pv *types.Var) bool {
+	resolve := func(e ast.Expr) bool {
+		for {
+			p, ok := e.(*ast.ParenExpr)
+			if !ok {
+				break
+			}
+			e = p.X
+		}
+		id, ok := e.(*ast.Ident)
+		if !ok {
+			return false
+		}
+		o := id
+		for in.origOf[o] != nil {
+			o = in.origOf[o]
+		}
+		return c.pkg.TypesInfo.Uses[o] == types.Object(pv)
+	}
+	bad := false
+	ast.Inspect(c.decl.Body, func(n ast.Node) bool {
+		switch x := n.(type) {
+		case *ast.AssignStmt:
+			for _, l := range x.Lhs {
+				if resolve(l) {
+					bad = true
+				}
+			}
+		case *ast.IncDecStmt:
+			if resolve(x.X) {
+				bad = true
+			}
+		case *ast.UnaryExpr:
+			if x.Op == token.AND && resolve(x.X) {
+				bad = true
+			}
+		case *ast.RangeStmt:
+			if (x.Key != nil && resolve(x.Key)) || (x.Value != nil && resolve(x.Value)) {
+				bad = true
+			}
+		}
+		return !bad
+	})
+	return !bad
 }
 
 // stableAlias: e is a plain identifier naming a local variable (or parameter)
